@@ -223,6 +223,23 @@ def run(ctx):
                     bg, _ = lazy_selection(mk_bg, flat, r, lambda: (names[0], 0, 1, 1))
                     ctx.count("lazy_selection_operands")
                 ga = genome.get_track(bg)
+                if flat and r.random() < 0.25 and kind == "int":
+                    # the same records written to a bedGraph file and read by the genome, in memory and as a stream
+                    bpath = ctx.path("t.bdg")
+                    with open(bpath, "w") as fh:
+                        for n_, s_, e_, v_ in flat:
+                            fh.write("%s\t%d\t%d\t%d\n" % (n_, s_, e_, v_))
+                    ft = genome.read_track(bpath)
+                    tdf = ft.to_dict()
+                    okf = all(np.array_equal(np.asarray(tdf[n_]), d[n_]) for n_ in names)
+                    ctx.check("construct+to_dict:file", okf, "read_track(file)/to_dict-differs-from-dense", "read_track of the written bedGraph differs from the dense arrays", {"sizes": sizes, "records": flat}, (tuple(sizes.items()), tuple(flat), "file"))
+                    stt = genome.read_track(bpath, stream=True)
+                    dd_ = stt.get_data()
+                    dd_ = dd_.compute() if hasattr(dd_, "compute") and not hasattr(dd_, "chromosome") else dd_
+                    got_f = [(c_, a_, b_, v_) for c_, a_, b_, v_ in zip([str(x) for x in dd_.chromosome.tolist()], np.asarray(dd_.start).tolist(), np.asarray(dd_.stop).tolist(), np.asarray(dd_.value).tolist()) if v_ != 0]
+                    dm_ = ft.get_data()
+                    exp_f = [(c_, a_, b_, v_) for c_, a_, b_, v_ in zip([str(x) for x in dm_.chromosome.tolist()], np.asarray(dm_.start).tolist(), np.asarray(dm_.stop).tolist(), np.asarray(dm_.value).tolist()) if v_ != 0]
+                    ctx.check("construct+to_dict:file", got_f == exp_f, "read_track(file,stream=True)/records-differ-from-in-memory", "streamed read_track gives %r, in memory %r" % (got_f[:4], exp_f[:4]), {"sizes": sizes, "records": flat}, (tuple(sizes.items()), tuple(flat), "file-stream"))
                 if flat and r.random() < 0.3:
                     # the same bedGraph as a stream of two chunks: the array it builds has the same records and the same reductions on every chromosome,
                     # also on chromosomes after the last one that has records
